@@ -158,11 +158,13 @@ def job_labels(first):
             combo = (first,) + rest
             present = {'day' for _, d, _, _ in combo if d is not None} | {'meal' for _, _, m, _ in combo if m is not None} | \
                 {'index' for _, _, _, i in combo if i is not None}
-            for sel in SELECTIONS:
-                case = {'family': 'labels', 'results (verdict, day, meal, index)': combo, 'by_labels': sel}
+            for sel, naming in itertools.product(SELECTIONS, ('distinct', 'same')):
+                if naming == 'same' and (num == 1 or len(sel) > 2):
+                    continue        # the same named check evaluated by several tasks under different labels (1-2 label selections)
+                case = {'family': 'labels', 'results (verdict, day, meal, index)': combo, 'by_labels': sel, 'naming': naming}
                 expect_exc = not set(sel) <= present
                 try:
-                    _, res = kit.build_stats_labels(combo, by_labels=sel)
+                    _, res = kit.build_stats_labels(combo, by_labels=sel, naming=naming)
                     exc = None
                 except TestStatsTestsByLabelsException as err:
                     exc, res = err, None
@@ -184,7 +186,7 @@ def job_labels(first):
                     rep.violate('C18|labels|duplicate-row', f'label combination listed twice: {res.classify}', case, size=num)
                 exp = {k: (v[0], v[1], v[0] + v[1]) for k, v in groups.items()}
                 if got != exp:
-                    rep.violate(f'C18|labels|counts|nsel={len(sel)}', f'by {sel}: {got}, recount {exp}', case, size=num)
+                    rep.violate(f'C18|labels|counts|nsel={len(sel)}' + ('' if naming == 'distinct' else '|names=same'), f'by {sel}: {got}, recount {exp}', case, size=num)
                 if res.nb_missing_labels() != missing:
                     rep.violate('C18|labels|missing', f'nb_missing_labels {res.nb_missing_labels()}, recount {missing}', case, size=num)
                 if groups and bool(res) != all(v[1] == 0 for v in groups.values()):
